@@ -61,8 +61,47 @@ fn gen_offsets(rng: &mut Rng) -> Vec<(usize, usize)> {
         if offsets_ok(pair.0, pair.1) && !v.contains(&pair) {
             v.push(pair);
         }
+        // sometimes a sibling configuration follows: same buffer length, the lower slot moved
+        if !v.is_empty() && v.len() < n && rng.chance(1, 3) {
+            let (d, e) = *v.last().unwrap();
+            let (lo, hi) = (d.min(e), d.max(e));
+            if hi >= 16 {
+                let nlo = rng.below((hi - 8) as u64 + 1) as usize;
+                let sib = if d < e { (nlo, hi) } else { (hi, nlo) };
+                if nlo != lo && offsets_ok(sib.0, sib.1) && !v.contains(&sib) {
+                    v.push(sib);
+                }
+            }
+        }
     }
     v
+}
+
+/// A byte of the fixed-metadata buffer configured by (d, e) that lies outside both slots. Drawn
+/// from a small set, so that a storing and a reading program often meet: the first free bytes, the
+/// last ones, and bytes where *another* configuration of this run keeps its slots.
+fn pick_meta_byte(rng: &mut Rng, d: usize, e: usize, offsets: &[(usize, usize)]) -> Option<usize> {
+    let len = d.max(e) + 8;
+    let free = |k: usize| k < len && !(d..d + 8).contains(&k) && !(e..e + 8).contains(&k);
+    let mut cands: Vec<usize> = Vec::new();
+    cands.extend((0..len.min(24)).filter(|k| free(*k)).take(2));
+    cands.extend((len.saturating_sub(24)..len).rev().filter(|k| free(*k)).take(2));
+    for (od, oe) in offsets {
+        if (*od, *oe) != (d, e) {
+            for base in [*od, *oe] {
+                let k = base + rng.range(0, 5) as usize;
+                if free(k) {
+                    cands.push(k);
+                    cands.push(k); // preferred: an old slot read as plain bytes
+                }
+            }
+        }
+    }
+    if cands.is_empty() {
+        None
+    } else {
+        Some(*rng.pick(&cands))
+    }
 }
 
 fn class_weights(mode: Prop, kind: Kind, mbuff_len: usize) -> Vec<(Class, u32)> {
@@ -91,6 +130,8 @@ fn class_weights(mode: Prop, kind: Kind, mbuff_len: usize) -> Vec<(Class, u32)> 
                 w.push((Class::SlotPlain, 5));
                 w.push((Class::ProbeSlotLen, 1));
                 w.push((Class::FixedBeyondEnd, 2));
+                w.push((Class::MetaStore, 4));
+                w.push((Class::MetaRead, 4));
             }
             if kind == Kind::Raw {
                 w.push((Class::ProbeR1Load, 2));
@@ -236,6 +277,13 @@ pub fn generate(rng: &mut Rng, mode: Prop) -> Scenario {
                 let reg = total - idx;
                 // any register may carry the register part (r0 included: it is also the destination)
                 let src = *rng.pick(&[3u8, 3, 0, 2, 4, 5, 6, 7, 8]);
+                // sometimes the register part is negative and the immediate makes up for it
+                let (idx, reg) = if rng.chance(1, 6) {
+                    let x = rng.range(1, 64) as usize;
+                    (total + x, -(x as i64))
+                } else {
+                    (idx, reg as i64)
+                };
                 gen_probe_pkt_ind(tag, idx, reg, *rng.pick(&[1u8, 1, 2, 4, 8]), src)
             }
             Class::ProbeR1Load => {
@@ -258,6 +306,14 @@ pub fn generate(rng: &mut Rng, mode: Prop) -> Scenario {
                 let (d, e) = *rng.pick(&offsets);
                 let beyond = *rng.pick(&[0usize, 0, 1, 7, 8, 64, 1000, 30000]);
                 gen_fixed_beyond_end(tag, d, e, beyond)
+            }
+            Class::MetaStore | Class::MetaRead => {
+                let (d, e) = *rng.pick(&offsets);
+                match pick_meta_byte(rng, d, e, &offsets) {
+                    None => gen_const(rng, tag), // no byte outside the two slots
+                    Some(k) if class == Class::MetaStore => gen_meta_store(tag, d, e, k, rng.range(1, 255) as u8, rng.chance(1, 2)),
+                    Some(k) => gen_meta_read(tag, d, e, k, if rng.chance(1, 2) { Some(rng.range(1, 255) as u8) } else { None }),
+                }
             }
             Class::PeekOtherProgram => gen_peek_other_program(tag, rng.below(i as u64) as usize), // an earlier pool entry
             Class::Mixed => gen_mixed(rng, tag, kind, p0len, mbuff_len),
